@@ -29,6 +29,8 @@ def refine(qs=8, qh=120, qsteps=200, ts=16, th=1500, tsteps=300):
 
 PROPS = {
     "C01": {
+        "level_text": "Unbounded Coq theorems on the model of member.rs: SWIM precedence = strict order by key; Members::apply = join; monotone; order/multiplicity/oracle independence of any update list; re-applying own state is the identity; two-way exchange agrees (all modulo the incarnation kept next to Down). Transferred to the code by the per-step refinement check in scope {apply_many,data} x {members,result}, plus a permutation/duplication falsifier on the real crate.",
+        "technique": "Coq proof (join-semilattice, induction over update lists) + model/code per-step refinement check",
         "scope": {"inputs": ["apply_many", "data"], "components": ["members", "result", "panic"]},
         "refine": refine(),
         "falsify": {"quick": 3000, "thorough": 200000},
@@ -38,5 +40,29 @@ PROPS = {
             "B2: win_addr_conflict is a strict total order on identities sharing an address",
             "theorems are stated on Members (member.rs); their transfer to apply_many/handle_data rests on the refinement check in scope {apply_many,data} x {members,result}",
         ],
+    },
+    "C06": {
+        "level_text": "Coq theorem step_preserves: for every state satisfying the master invariant WF (proved for every reachable state by induction over histories), every legal input (arbitrary byte strings, any Timer variant with any token/identity/incarnation, every API call, set_config with any legal config) and every oracle, the model's step never returns Panicked - where the model raises Panicked at every debug_assert/expect/overflow site of the debug build. Transferred to the code by the refinement check (panic <-> Panicked on every compared step) and a catch_unwind falsifier incl. Config::new_lan/new_wan sweeps.",
+        "technique": "Coq proof (inductive invariant over all histories, Hoare logic on the model monad) + per-step refinement check + catch_unwind fuzzing of the real crate",
+        "scope": {"inputs": "*", "components": ["panic", "result", "send_cap"]},
+        "refine": refine(),
+        "falsify": {"quick": 400, "thorough": 40000},
+        "trusted_base": TB_COMMON + ["ExtraLaws (renew keeps the address, encoded members are non-empty, decoders leave bytes) - proved for the executable codec/identity", "B6: 1 <= max_packet_size <= 65535 in the theorem (larger packets are covered by the refinement check and falsifier only)"],
+        "partial": "Config::new_lan/new_wan (f64 log10 arithmetic) are covered by the falsifier sweep, not by a theorem; panics inside bytes/rand/alloc and user-supplied code are excluded by contract",
+        "assumptions": [
+            "user-supplied Codec/Runtime/BroadcastHandler/Identity do not panic (as the property states)",
+            "B3: change_identity keeps the address; B6: max_packet_size <= 65535 for the theorem",
+            "received data are bytes (each < 256)",
+        ],
+    },
+    "C19": {
+        "level_text": "Coq theorem: in every call from a WF state every Send effect goes to an identity whose address differs from the instance's own, unless that identity was named by the input (announce(dst), relay target of PingReq/IndirectAck, member of a suspicion timer); the own address is constant along every history. Proved from the invariant 'every record bearing the own address is Down' for every reachable state, all oracles. Refinement scope sends.dst; falsifier checks every destination along histories that keep learning own-address identities.",
+        "technique": "Coq proof (inductive invariant + per-call Hoare reasoning) + per-step refinement check",
+        "scope": {"inputs": "*", "components": ["sends.dst", "sends.count", "members", "identity"]},
+        "refine": refine(),
+        "falsify": {"quick": 400, "thorough": 40000},
+        "trusted_base": TB_COMMON + ["ExtraLaws - proved for the executable codec/identity"],
+        "assumptions": ["B3: change_identity(new) keeps the address (documented use); renew() keeps the address",
+                        "relays to a target named by a peer and the destination passed to announce() are outside the guarantee (as the property states)"],
     },
 }
